@@ -131,6 +131,7 @@ class Harness(object):
         c = self.run.clock
         s['_clock'] = (c.wall, c.mono, c.cpu)
         s['trialSolution'] = observe.canon(getattr(solver or self.solver, 'trialSolution', None))
+        s['_cost_spec'] = self.cost.spec if self.cost is not None else None
         return s
 
     def thinned(self, step_no):
@@ -295,6 +296,8 @@ class Harness(object):
         elif what == 'evalmon':
             s.SetEvaluationMonitor(self.make_monitor(arg), new=bool(arg.get('new', False)))
         elif what == 'objective':
+            if arg:                               # a different objective from here on
+                self.cost = SimCost(arg)
             s.SetObjective(self.cost)
             self.passed_cost = True
         elif what == 'handler':
@@ -386,6 +389,19 @@ class Harness(object):
 
     def op_finalize(self, op):
         self.solver.Finalize()
+
+    def op_saveload(self, op):
+        """the process ends here and a new one resumes from the restart file"""
+        from mystic.solvers import LoadSolver
+        path = self.run.fs.path('resume-%d.pkl' % self.op_index)
+        self.solver.SaveSolver(path)
+        self.solvers[self.cur] = LoadSolver(path)
+        self.run.probe('op.saveload')
+
+    def op_copy(self, op):
+        import copy
+        self.solvers[self.cur] = copy.copy(self.solver) if op.get('shallow', True) else copy.deepcopy(self.solver)
+        self.run.probe('op.copy')
 
     def op_reseed(self, op):
         from mystic.tools import random_seed
